@@ -290,6 +290,14 @@ def run(ctx):
     rng = ctx.rng
     os.makedirs(SCRATCH, exist_ok=True)
     pool_m = gen_games.mixed_games(rng, 40 if ctx.quick else 200, 3, 9, styles=("stopping", "exact"))
+    # keep only games on which both solves return within a few seconds (a generated game may let Player 1
+    # collect reward on a cycle for ever: the reward iteration then never stops, which is not this property's
+    # subject and would only show up here as a time-out of the whole batch)
+    pre = impl.run_cases([dict(op="solve", game=enc(g), prune=pr, limit=5) for g, _ in pool_m for pr in (True, False)],
+                         limit=5, tag="c16p")
+    pool_m = [gm for k, gm in enumerate(pool_m) if "timeout" not in pre[2 * k] and "timeout" not in pre[2 * k + 1]]
+    ctx.notes.append("game pool: %d generated games kept, %d dropped because a solve did not return within 5 s"
+                     % (len(pool_m), len(pre) // 2 - len(pool_m)))
     pool = [g for g, _ in pool_m]
     meta_of = {id(g): m for g, m in pool_m}
     ndict = 100 if ctx.quick else 1000
